@@ -1948,6 +1948,10 @@ class Interp:
         return ("fn", "." + name, [b])
 
     LIB_CONST = {("types", "FunctionType"): ("ext", "function", []), ("types", "LambdaType"): ("ext", "function", []), ("types", "MethodType"): ("ext", "method", [])}
+    import string as _string
+    for _n in ("ascii_letters", "ascii_lowercase", "ascii_uppercase", "digits", "hexdigits", "octdigits", "punctuation", "printable", "whitespace"):
+        LIB_CONST[("string", _n)] = ("c", getattr(_string, _n))          # the constants of the string module
+    del _n, _string
 
     def repo_module_attr(self, label, name):
         """value of `name` in a module of this repository referred to by the opaque label 'module <dotted>'; None if unknown"""
